@@ -63,6 +63,47 @@ fn stats_error_from_model_error() {
     assert!(matches!(e, super::Error::ModelEvaluation(ModelError::IncorrectParameterCount { expected: a, actual: b }) if a == expected && b == actual));
 }
 
+static mut LAST_Q: f64 = -1.0;
+static mut LAST_NU: f64 = -1.0;
+/// stands for distrs::StudentsT::ppf (Hill's algorithm: float-heavy, assumed): records its arguments
+fn ppf_probe<T: Into<f64>>(p: f64, n: T) -> f64 {
+    unsafe {
+        LAST_Q = p;
+        LAST_NU = n.into();
+    }
+    1.0
+}
+
+/// C14: the quantile handed to the Student-t distribution is EXACTLY (1 + p) / 2 (computed in f64: exact for every f32 p) and the
+/// degrees of freedom are the stored ones -- complete over all f32 probabilities in (0, 1); catches a quantile computed in
+/// reduced precision, a one-sided quantile, dof +- 1
+#[kani::proof]
+#[kani::stub(distrs::StudentsT::ppf, ppf_probe)]
+fn cbr_quantile_argument_f32() {
+    let p: f32 = kani::any();
+    kani::assume(p > 0.0 && p < 1.0);
+    let s = stats_f32();
+    let r = s.confidence_band_radius(p);
+    let (q, nu) = unsafe { (LAST_Q, LAST_NU) };
+    assert!(q == ((p as f64) + 1.0) / 2.0);
+    assert!(nu == 1.0);
+    assert!(r.len() == 1);
+}
+
+/// the same for f64 models
+#[kani::proof]
+#[kani::stub(distrs::StudentsT::ppf, ppf_probe)]
+fn cbr_quantile_argument_f64() {
+    let p: f64 = kani::any();
+    kani::assume(p > 0.0 && p < 1.0);
+    let s = stats_f64();
+    let r = s.confidence_band_radius(p);
+    let (q, nu) = unsafe { (LAST_Q, LAST_NU) };
+    assert!(q == (p + 1.0) / 2.0);
+    assert!(nu == 1.0);
+    assert!(r.len() == 1);
+}
+
 /// bounded validation of `concat_colwise`: [left | right] column placement (2 x 2 and 2 x 1)
 #[kani::proof]
 #[kani::unwind(6)]
